@@ -4,11 +4,13 @@
 package c11
 
 import (
+	"bytes"
 	"context"
 	"errors"
 	"fmt"
 	"io"
 	"runtime"
+	"strconv"
 	"sync"
 	"sync/atomic"
 	"testing"
@@ -17,6 +19,7 @@ import (
 	"github.com/tychoish/fun"
 	"github.com/tychoish/fun/pubsub"
 	"github.com/tychoish/fun/srv"
+	"github.com/tychoish/fun/verifhook"
 	"pgregory.net/rapid"
 
 	"verif/harness/vkit"
@@ -37,9 +40,20 @@ type member struct {
 
 type Member struct {
 	Outcome string `json:"outcome"` // ok | error | panic | block-ok | block-error
-	State   string `json:"state"`   // unstarted | running | finished   (when it is handed over)
+	State   string `json:"state"`   // unstarted | running | finished | starting (orchestrator only: somebody's Start call is in flight)   (when it is handed over)
 	When    string `json:"when"`    // before | after   (the orchestrator / group starts)
 	Yield   int    `json:"yield"`
+}
+
+func goid() int {
+	buf := make([]byte, 64)
+	buf = buf[:runtime.Stack(buf, false)]
+	buf = bytes.TrimPrefix(buf, []byte("goroutine "))
+	if i := bytes.IndexByte(buf, ' '); i > 0 {
+		n, _ := strconv.Atoi(string(buf[:i]))
+		return n
+	}
+	return -1
 }
 
 func mkMember(i int, m Member, clock *atomic.Int64) *member {
@@ -96,6 +110,40 @@ func runOrch(c *orchCase) (string, string) {
 		mm := mkMember(i, m, &clock)
 		ms[i] = mm
 		switch m.State {
+		case "starting":
+			// somebody else's Start call is still in flight when the
+			// member is handed over: it is held at the point where the
+			// service goroutines have been launched and Start has not
+			// returned yet (build tag verif)
+			entered, release := make(chan struct{}), make(chan struct{})
+			var target atomic.Int64
+			target.Store(-1)
+			// other services may be started meanwhile (by the running
+			// orchestrator): only the call made by our goroutine is held
+			verifhook.Set("srv.Service.Start.launched", func() {
+				if int64(goid()) == target.Load() {
+					close(entered)
+					<-release
+				}
+			})
+			startErr := make(chan error, 1)
+			go func() { target.Store(int64(goid())); startErr <- mm.svc.Start(own) }()
+			select {
+			case <-entered:
+			case <-time.After(limit):
+				verifhook.Clear()
+				close(release)
+				return "harness", "the Start hook was not reached"
+			}
+			verifhook.Clear()
+			accepted[i] = orc.Add(mm.svc) == nil
+			// give a running orchestrator the time to look at the member
+			time.Sleep(2 * time.Millisecond)
+			close(release)
+			if err := <-startErr; err != nil {
+				return "harness", fmt.Sprintf("starting member %d: %v", i, err)
+			}
+			return "", ""
 		case "running":
 			if err := mm.svc.Start(own); err != nil {
 				return "harness", fmt.Sprintf("starting member %d: %v", i, err)
@@ -178,7 +226,7 @@ func runOrch(c *orchCase) (string, string) {
 	// the orchestrator has to await them
 	anyOwn := false
 	for i, m := range c.Members {
-		if accepted[i] && m.State == "running" && (m.Outcome == "block-ok" || m.Outcome == "block-error") {
+		if accepted[i] && (m.State == "running" || m.State == "starting") && (m.Outcome == "block-ok" || m.Outcome == "block-error") {
 			anyOwn = true
 		}
 	}
@@ -252,6 +300,9 @@ func TestOrchestrator(t *testing.T) {
 			if m.State == "running" && vkit.Known("C11:orchestrator/not-awaited") {
 				vkit.Excluded(tOrch, "C11:orchestrator/not-awaited")
 				m.State = "unstarted"
+			}
+			if m.When == "after" && m.State != "finished" && rapid.IntRange(0, 4).Draw(t, "starting") == 0 {
+				m.State = "starting"
 			}
 			c.Members = append(c.Members, m)
 			nonOK = nonOK || m.Outcome != "ok"
